@@ -20,7 +20,7 @@ RULE = ("Tensors of depth 1-3 with authoritative or estimated shape, zero / non-
         "project with rank_id and interval, prune, coiter*) and adoption of unowned fibers by Tensor.fromFiber. "
         "Oracle: a table written from the docstrings: rank ids (X -> X.1, X.0; list of merged ids; its inverse; the "
         "requested order), shape re-arranged the same way whenever getShape(authoritative=True) of the operand is "
-        "not None, leaf default, formats of surviving ranks (split halves inherit, merged rank C), mutability; every "
+        "not None, leaf default, formats of surviving ranks (split halves inherit; the format of a newly created merged rank is not specified), mutability; every "
         "stored coordinate inside the reported shape (component-wise for tuple shapes) and, for halo-free results, "
         "iterActive == iterOccupancy for every fiber; lazy fibers: rank id of the first operand (destination for <<) "
         "and the active range the operation defines; an adopted fiber reports its rank's id, shape and default. "
